@@ -81,7 +81,7 @@ func isLinkLoad(v ssa.Value) (ssa.Value, string, bool) {
 	if !types.Identical(u.Type(), fa.X.Type()) {
 		return nil, "", false
 	}
-	return fa.X, st.Field(fa.Field).Name(), true
+	return fa.X, fieldAliasName(st.Field(fa.Field)), true
 }
 
 func definedIn(v ssa.Value, li *loopInfo) bool {
@@ -260,7 +260,7 @@ func valueName(v ssa.Value) string {
 		}
 		if fa, ok := v.X.(*ssa.FieldAddr); ok {
 			if st, ok := derefStruct(fa.X.Type()); ok {
-				return valueName(fa.X) + "." + st.Field(fa.Field).Name()
+				return valueName(fa.X) + "." + fieldAliasName(st.Field(fa.Field))
 			}
 		}
 	case *ssa.Const:
